@@ -750,7 +750,8 @@ class DeferQueue:
 
     def __init__(self):
         self._writes = []
-        self._pending_offsets = set()
+        # Dict[offset, length of the longest chunk queued at that offset]
+        self._pending_offsets = {}
         self._next_offset = 0
 
     def request_writes(self, offset, data):
@@ -770,19 +771,31 @@ class DeferQueue:
             # This is a request for a write that we've already
             # seen.  This can happen in the event of a retry
             # where if we retry at at offset N/2, we'll requeue
-            # offsets 0-N/2 again.
-            return []
+            # offsets 0-N/2 again.  A retried stream may be chunked
+            # differently, so keep whatever part of the data has
+            # not been written yet.
+            data = data[self._next_offset - offset :]
+            if not data:
+                return []
+            offset = self._next_offset
         writes = []
-        if offset in self._pending_offsets:
+        if self._pending_offsets.get(offset, -1) >= len(data):
             # We've already queued this offset so this request is
             # a duplicate.  In this case we should ignore
             # this request and prefer what's already queued.
             return []
         heapq.heappush(self._writes, (offset, data))
-        self._pending_offsets.add(offset)
-        while self._writes and self._writes[0][0] == self._next_offset:
+        self._pending_offsets[offset] = len(data)
+        while self._writes and self._writes[0][0] <= self._next_offset:
             next_write = heapq.heappop(self._writes)
-            writes.append({'offset': next_write[0], 'data': next_write[1]})
-            self._pending_offsets.remove(next_write[0])
-            self._next_offset += len(next_write[1])
+            if self._pending_offsets.get(next_write[0]) == len(next_write[1]):
+                del self._pending_offsets[next_write[0]]
+            # Chunks queued by different attempts may overlap, drop the
+            # part of the chunk that has already been handed out.
+            already_written = self._next_offset - next_write[0]
+            if already_written and already_written >= len(next_write[1]):
+                continue
+            data_to_write = next_write[1][already_written:]
+            writes.append({'offset': self._next_offset, 'data': data_to_write})
+            self._next_offset += len(data_to_write)
         return writes
